@@ -34,6 +34,7 @@ type Case struct {
 	JSONBody                                          bool
 	CEnc                                              string `json:",omitempty"` // Content-Encoding of the probe: "" | identity | utf-8 | compress (none of them a supported compression: the body is taken as is)
 	Fillers                                           []Filler
+	Rewrite                                           bool   `json:",omitempty"` // the handler overrides path and method after reading the values (they must stay what they were until it returns)
 	Pre                                               string `json:",omitempty"` // middleware in front of the endpoint: "" | mw-next (passes on) | mw-params (reads its own route parameter and other accessors, keeps them, passes on)
 }
 
@@ -156,6 +157,11 @@ func (r *run) capture(c fiber.Ctx, cs Case, probe bool) {
 	_ = c.SendString("probe")
 	if !probe {
 		return
+	}
+	if cs.Rewrite {
+		// what rewrite / method-override middleware does while the handler still holds the values it read before
+		c.Path("/" + strings.Repeat("z", len("/u/"+cs.ID+"/"+cs.Rest)-1)) // as long as the original path: fits its buffer
+		c.Method("PUT")
 	}
 	for _, cp := range caps {
 		if cp.val != cp.orig {
@@ -308,7 +314,7 @@ func genCase(t *rapid.T) Case {
 	cs := Case{ID: word(t, "id", 3, 9), Rest: word(t, "rest", 3, 9), QName: word(t, "qn", 3, 9), T1: word(t, "t1", 2, 5), T2: word(t, "t2", 2, 5),
 		H1: word(t, "h1", 2, 5), H2: word(t, "h2", 2, 5), XName: word(t, "xn", 3, 9), Ck: word(t, "ck", 3, 9), FName: word(t, "fn", 3, 9), JSONBody: rapid.IntRange(0, 3).Draw(t, "json") == 0,
 		CEnc: rapid.SampledFrom([]string{"", "", "", "identity", "utf-8", "compress"}).Draw(t, "cenc"),
-		Pre:  rapid.SampledFrom([]string{"", "", "mw-next", "mw-params", "mw-params"}).Draw(t, "pre")}
+		Pre:  rapid.SampledFrom([]string{"", "", "mw-next", "mw-params", "mw-params"}).Draw(t, "pre"), Rewrite: rapid.IntRange(0, 3).Draw(t, "rewrite") == 0}
 	n := rapid.IntRange(1, 20).Draw(t, "nfill")
 	up := func(label string, lo, hi int) string { return strings.ToUpper(word(t, label, lo, hi)) }
 	for i := 0; i < n; i++ {
